@@ -15,6 +15,7 @@ package querylog
 //vx:stub (*github.com/AdguardTeam/AdGuardHome/internal/querylog.queryLog).decodeLogEntry vxC08Decode
 //vx:note the query log is the real queryLog (ShouldLog, Add, ring buffer, search, searchMemory, readNextEntry, entriesToJSON); log files are a harness list of already decoded entries: the file reader (C20) and the JSON line decoder are replaced (newQLogReader, qLogReader.SeekStart/ReadNext/Close, decodeLogEntry)
 //vx:note SearchFiles: 1..2 (quick) / 1..3 (thorough) file entries, each with a distinct name (symbolic "currently ignored" bit), v4 / v6 / 4-in-6 stored address with symbolic bytes (first byte tags the entry), optional ClientID, client record none / present with symbolic IgnoreQueryLog found by ClientID or address; anonymisation on/off at the time of the API call
+//vx:note both Search entries: the second entry may carry the first entry's client address (two clients, or one client with and without a ClientID, behind one address); the oracle resolves each entry's client independently (ClientID record first, else address record), so a result reused across entries of one search is caught
 //vx:note SearchMemory: 1..2 entries recorded through the real ShouldLog+Add while nothing was ignored and anonymisation was off, then the ignore verdict / client flag changes and anonymisation may be switched on, then the API is queried
 
 import (
@@ -201,6 +202,7 @@ type vxC08World struct {
 	byCID     []bool // ... identified by ClientID (else by address)
 	ignoring  []bool // ... with ignore_querylog set
 	hasCID    []bool
+	addrOf    []int // entry whose client address entry i carries (i itself, or 0 when the second entry comes from the first one's address)
 	active    bool // verdicts / flags in force (false while recording)
 }
 
@@ -240,8 +242,22 @@ func vxC08NewWorld(n int) *vxC08World {
 		w.hasClient = append(w.hasClient, vx.Bool("clientRecord"))
 		w.byCID = append(w.byCID, vx.And(hasCID, vx.Bool("recordByClientID")))
 		w.ignoring = append(w.ignoring, vx.Bool("clientIgnoreQueryLog"))
+		w.addrOf = append(w.addrOf, i)
+	}
+	if n >= 2 && vx.Bool("secondEntrySharesAddress") {
+		w.addrOf[1] = 0
 	}
 	return w
+}
+
+// clientIgnored is the reference: the client of entry i is the persistent
+// client found by its ClientID, else the one found by its address (which
+// another entry may share); is that client's ignore_querylog flag set.
+func (w *vxC08World) clientIgnored(i int) bool {
+	a := w.addrOf[i]
+	byID := vx.And(w.hasClient[i], w.byCID[i])
+	byAddr := vx.And(w.hasClient[a], !w.byCID[a])
+	return vx.Or(vx.And(byID, w.ignoring[i]), vx.And(!byID, vx.And(byAddr, w.ignoring[a])))
 }
 
 // vxC08CheckReport: nothing that is currently ignored is reported; reported
@@ -259,10 +275,10 @@ func vxC08CheckReport(w *vxC08World, rep []VxC08Rec, anon bool, mem bool) {
 			continue
 		}
 		if mem {
-			vx.Known("C08-memory-not-refiltered", vx.Or(w.ignored[i], vx.And(w.hasClient[i], w.ignoring[i])))
+			vx.Known("C08-memory-not-refiltered", vx.Or(w.ignored[i], w.clientIgnored(i)))
 		}
 		vx.Assert(!w.ignored[i], "the log API does not return an entry whose name is currently ignored")
-		vx.Assert(!vx.And(w.hasClient[i], w.ignoring[i]), "the log API does not return an entry whose client is currently ignored")
+		vx.Assert(!w.clientIgnored(i), "the log API does not return an entry whose client is currently ignored")
 		if mem {
 			vx.Reach("mem-returned")
 		} else {
@@ -298,15 +314,17 @@ func vxC08SearchFiles() {
 	aghnet.VxC08Verdict = w.verdict
 	ql := VxC08New(w.findClient, &aghnet.IgnoreEngine{}, anonymizer)
 	form := vx.Choice("addrForm", 3)
+	var addrs []net.IP
 	for i := 0; i < n; i++ {
 		// the first entry has any of the three address forms, the next ones the
 		// following forms in turn
+		addrs = append(addrs, vxC08Addr(i, (form+i)%3))
 		e := &logEntry{
 			Time:   time.Unix(1_600_000_000-int64(i), 0).UTC(),
 			QHost:  vxC08Hosts[i],
 			QType:  "A",
 			QClass: "IN",
-			IP:     vxC08Addr(i, (form+i)%3),
+			IP:     addrs[w.addrOf[i]],
 		}
 		if w.hasCID[i] {
 			e.ClientID = vxC08CIDs[i]
@@ -330,8 +348,10 @@ func vxC08SearchMemory() {
 	aghnet.VxC08Verdict = w.verdict
 	ql := VxC08New(w.findClient, &aghnet.IgnoreEngine{}, anonymizer)
 	// recorded while nothing is ignored
+	var addrs []net.IP
 	for i := 0; i < n; i++ {
-		ip := vxC08Addr(i, 0)
+		addrs = append(addrs, vxC08Addr(i, 0))
+		ip := addrs[w.addrOf[i]]
 		ids := []string{ip.String()}
 		cid := ""
 		if w.hasCID[i] {
